@@ -302,7 +302,7 @@ impl Recorder {
                                         &d,
                                     )
                                 } else {
-                                    b.add_batch(HCtl::<$k> { gid, n: *n, t: *t, ctx, k: PhantomData }, ib, &rname, &d)
+                                    b.add_batch(HCtl::<$k> { gid, inner_b: iidx, n: *n, t: *t, ctx, k: PhantomData }, ib, &rname, &d)
                                 }
                             };
                         }
